@@ -837,6 +837,23 @@ func vrCaseSignHashed(c *vrCase) {
 		}
 		c.check(err != nil && r == nil && s == nil, in, fmt.Sprintf("err=%v,r=%s,s=%s", err, vrHex(r), vrHex(s)), "err!=nil,r=nil,s=nil")
 	}
+	// streams that end exactly on a 32-byte boundary: empty, or only rejected candidates (io.EOF at the start of a draw)
+	for i, data := range [][]byte{{}, vrB32(vrN), append(vrB32(vrN), make([]byte, 32)...), append(append(vrB32(vrN), bytes.Repeat([]byte{0xff}, 32)...), make([]byte, 32)...)} {
+		d := vrB32(vrRandKey(c.rng))
+		e := vrRandE(c.rng)
+		rd := vrNewReader(data)
+		if i == 3 {
+			rd.maxRead = 16
+		}
+		var r, s []byte
+		var err error
+		in := fmt.Sprintf(`{"priv":"%s","e":"%s","rand":"%s","kind":"stream ends on a candidate boundary","maxRead":%d}`, vrHex(d), vrHex(e), vrHex(data), rd.maxRead)
+		if p := vrTry(func() { r, s, err = SignHashed(rd, d, e) }); p != "" {
+			c.check(false, in, p, "err!=nil,r=nil,s=nil")
+			continue
+		}
+		c.check(err != nil && r == nil && s == nil, in, fmt.Sprintf("err=%v,r=%s,s=%s", err, vrHex(r), vrHex(s)), "err!=nil,r=nil,s=nil")
+	}
 	// a failing call that also hands out part of a candidate, from a source that then recovers: still an error, never a
 	// signature made from a candidate that straddles the fault (first draw, and after a rejected candidate; short reads too)
 	for i := 0; i < 12; i++ {
@@ -1267,6 +1284,48 @@ func vrCaseSignThenVerify(c *vrCase) {
 		}
 		c.check(ok && err == nil && len(r) == 32 && len(s) == 32, in, fmt.Sprintf("%v,err=%v", ok, err), "true")
 	}
+	// streams whose first candidates are rejected (out of range; r = 0, r + k = n, s = 0 forced through the digest):
+	// the signature made from the later candidate must verify for the digest that was passed in
+	for i := 0; i < 24; i++ {
+		k := keys[i%len(keys)]
+		d := vrInt(k[0])
+		k1, k2 := vrRandNonce(c.rng), vrRandNonce(c.rng)
+		x1 := vrMulPt(k1, vrG).x
+		var e *big.Int
+		chunks := [][]byte{vrB32(k1), vrB32(k2)}
+		switch i % 4 {
+		case 0: // r = 0
+			e = new(big.Int).Neg(x1)
+		case 1: // r + k = n
+			e = new(big.Int).Sub(vrN, k1)
+			e.Sub(e, x1)
+		case 2: // s = 0: k = r d
+			r := new(big.Int).Mul(k1, new(big.Int).ModInverse(d, vrN))
+			e = new(big.Int).Sub(r, x1)
+		default: // out-of-range candidates first
+			e = vrInt(vrBytes(c.rng, 32))
+			chunks = [][]byte{vrB32(vrN), make([]byte, 32), bytes.Repeat([]byte{0xff}, 32), vrB32(k2)}
+		}
+		e.Mod(e, vrN)
+		eb := vrB32(e)
+		if _, _, _, ok := vrRefSign(d, e, chunks); !ok {
+			continue // degenerate stream (e.g. k2 = -k1): the reference finds no acceptable candidate either
+		}
+		in := fmt.Sprintf(`{"op":"SignHashed+VerifyHashed after rejected candidates","priv":"%s","e":"%s","rand":"%s"`, vrHex(k[0]), vrHex(eb), vrChunksHex(chunks))
+		var r, s []byte
+		var err error
+		if p := vrTry(func() { r, s, err = SignHashed(vrNewReader(chunks...), k[0], eb) }); p != "" || err != nil {
+			c.check(false, in+"}", fmt.Sprintf("sign:%s,err=%v", p, err), "signature")
+			continue
+		}
+		in += fmt.Sprintf(`,"r":"%s","s":"%s"}`, vrHex(r), vrHex(s))
+		var ok bool
+		if p := vrTry(func() { ok, err = VerifyHashed(k[1], k[2], eb, r, s) }); p != "" {
+			c.check(false, in, "verify:"+p, "true")
+			continue
+		}
+		c.check(ok && err == nil, in, fmt.Sprintf("%v,err=%v", ok, err), "true")
+	}
 	// the message-level entry points
 	for i := 0; i < c.n/2+10; i++ {
 		k := keys[i%len(keys)]
@@ -1538,7 +1597,7 @@ func vrCaseGenerateKey(c *vrCase) {
 		c.check(err != nil && x == nil && y == nil, in, fmt.Sprintf("err=%v,x=%s,y=%s", err, vrHex(x), vrHex(y)), "err!=nil,x=nil,y=nil")
 	}
 	// stream that ends early
-	for _, data := range [][]byte{{}, make([]byte, 31), append(vrB32(vrN), 1, 2, 3)} {
+	for _, data := range [][]byte{{}, make([]byte, 31), append(vrB32(vrN), 1, 2, 3), vrB32(vrN), append(vrB32(vrN), make([]byte, 32)...), make([]byte, 64)} {
 		rd := vrNewReader(data)
 		in := fmt.Sprintf(`{"rand":"%s","kind":"short stream"}`, vrHex(data))
 		var x, y []byte
@@ -1701,6 +1760,24 @@ func vrCaseZA(c *vrCase) {
 		}
 		k := keys[c.rng.Intn(len(keys))]
 		vrZAOne(c, vrBytes(c.rng, l), k.px, k.py)
+	}
+	// histories on reused buffers: the caller overwrites its id / coordinate buffers in place between calls (same
+	// lengths, new contents), repeats an earlier input, and interleaves other identities; every call must depend on
+	// the current contents only
+	idBuf, pxBuf, pyBuf := make([]byte, 16), make([]byte, 32), make([]byte, 32)
+	for step := 0; step < 24; step++ {
+		k := keys[(step/2)%len(keys)]
+		if step%3 != 2 {
+			copy(idBuf, vrBytes(c.rng, 16))
+		}
+		if step%2 == 0 {
+			copy(pxBuf, k.px)
+			copy(pyBuf, k.py)
+		}
+		vrZAOne(c, idBuf, pxBuf, pyBuf)
+		if step%5 == 4 {
+			vrZAOne(c, vrBytes(c.rng, 16), k.px, k.py)
+		}
 	}
 }
 
